@@ -48,7 +48,7 @@ TEXT = {
          "exhaustive fault-history enumeration in a fake process world (events also injected between any two calls into it) + trace oracle; strace cross-check on real processes (thorough)"),
  "C18": ("Fault enumeration as C17 with the budget/reload/shutdown oracle over return value, is_alive observations, per-tick restarts and os.kill events.",
          "exhaustive fault-history enumeration in a fake process world (events also injected between any two calls into it) + trace oracle; strace cross-check on real processes (thorough)"),
- "C19": ("Runtime check: generated exception graphs go through the four TaskiqResult round trips; oracle for totality, class/args fidelity or accepted stand-in, and cause/context/suppress along a path-set walk; known finding F9 classified by mechanism.",
+ "C19": ("Runtime check: generated exception graphs go through five TaskiqResult round trips (JSON text, JSON dict, python dict, pickle, pickle followed by the model's own validation); oracle for totality, class/args fidelity or accepted stand-in, and cause/context/suppress along a path-set walk; known finding F9 classified by mechanism.",
          "generated object graphs + round-trip oracle"),
  "C20": ("Runtime sanitizer: sys.monitoring CALL events from taskiq code objects, self-recording traps, import audit hook while crafted payloads are loaded through three entry points.",
          "sys.monitoring call sanitizer + trap objects + import audit hook"),
